@@ -61,24 +61,47 @@ structure Shape where
   modFinally : Bool
   chanFinally : Bool
   cbFinally : Bool
+  /-- read_callback: does the swapping assignment itself (whose setter calls `_set_timeout`, which can
+      raise AFTER the args attribute is assigned) stand inside the `try`?  (generic/sync_driver.py:582) -/
+  cbSwapInTry : Bool
+  /-- `_read_until_prompt_or_time`: does the swapping assignment stand inside the `try`?  (Matters only under
+      `asyncExc`: the channel assigns the args attribute directly, nothing can raise inside the assignment.) -/
+  chanSwapInTry : Bool
+  /-- an ENVIRONMENT assumption rather than a fact about the source: may an exception also arrive between the
+      swapping assignment of `_read_until_prompt_or_time` and its `try` (the SIGALRM of the sync ops timer, which is
+      armed around the whole channel operation, raising from its handler after `BytesIO(buf)` / `time.time()`,
+      sync_channel.py:237-241)?  `false` = exceptions are raised by call sites only. -/
+  asyncExc : Bool := false
 deriving DecidableEq, Repr
 
-def Shape.all (sh : Shape) : Bool := sh.modFinally && sh.chanFinally && sh.cbFinally
-/-- the shape of a tree in which every restore stands in a `finally` -/
-def Shape.fixed : Shape := ⟨true, true, true⟩
+/-- the three restores stand in a `finally` -/
+def Shape.finallys (sh : Shape) : Bool := sh.modFinally && sh.chanFinally && sh.cbFinally
+def Shape.all (sh : Shape) : Bool := sh.finallys && sh.cbSwapInTry && (sh.chanSwapInTry || !sh.asyncExc)
+/-- the shape of a tree in which every restore stands in a `finally` and both transport-timeout swaps stand inside
+    their `try` (fixes/C14-swap-inside-try.patch + fixes/C14-channel-swap-inside-try.patch) -/
+def Shape.fixed : Shape := ⟨true, true, true, true, true, false⟩
+/-- the shape of the tree from 9d6a16c on: three `finally`s, read_callback's swap before its `try` -/
+def Shape.swapOutside : Shape := ⟨true, true, true, false, false, false⟩
 /-- the shape of the tree at 8ae1258 (before fixes/C14-restore-timeout-transport.patch) -/
-def Shape.prefix : Shape := ⟨true, false, false⟩
+def Shape.prefix : Shape := ⟨true, false, false, false, false, false⟩
 /-- the shapes found in the tree by the translator -/
-def Shape.sync : Shape := ⟨Gen.TimeoutRestore.syncModFinally, Gen.TimeoutRestore.syncChanFinally, Gen.TimeoutRestore.syncCbFinally⟩
-def Shape.async : Shape := ⟨Gen.TimeoutRestore.asyncModFinally, Gen.TimeoutRestore.asyncChanFinally, Gen.TimeoutRestore.asyncCbFinally⟩
+def Shape.sync : Shape :=
+  ⟨Gen.TimeoutRestore.syncModFinally, Gen.TimeoutRestore.syncChanFinally, Gen.TimeoutRestore.syncCbFinally,
+   Gen.TimeoutRestore.syncCbSwapInTry, Gen.TimeoutRestore.syncChanSwapInTry, false⟩
+def Shape.async : Shape :=
+  ⟨Gen.TimeoutRestore.asyncModFinally, Gen.TimeoutRestore.asyncChanFinally, Gen.TimeoutRestore.asyncCbFinally,
+   Gen.TimeoutRestore.asyncCbSwapInTry, Gen.TimeoutRestore.asyncChanSwapInTry, false⟩
 
 inductive Site
-  | pre | sendInput | write | readUntilInput | sendReturn | read | interact | acquire | abort | check | run
+  | pre | sendInput | write | readUntilInput | sendReturn | read | interact | acquire | abort | check | run | push
+  | gap       -- not a call: the point between a swapping assignment and its `try`
 deriving DecidableEq, Repr
 
 /-- which temporary `timeout_transport` is in force at a site -/
 inductive Region
   | none | chan | cb
+  | swap      -- inside read_callback's swapping assignment when that stands before the `try`
+  | gap       -- between the swap of `_read_until_prompt_or_time` and its `try`
 deriving DecidableEq, Repr
 
 structure Entry (α : Type) where
@@ -145,14 +168,35 @@ def call (k : Site) (r : Region) : M α Unit := do
 def callIf (b : Bool) (k : Site) : M α Unit :=
   if b then call k .none else pure ()
 
+/-- the gap between a swap and its try, present only under `Shape.asyncExc` -/
+def callIf' (b : Bool) : M α Unit :=
+  if b then call .gap .gap else pure ()
+
 def getSt : M α (St α) := fun c => (.ok c.st, c)
 /-- `timeout_ops` setter, base_driver.py:951 -/
 def setOps (v : α) : M α Unit := fun c => (.ok (), { c with st := { c.st with ops := v } })
 /-- `_transport_args.timeout_transport = v` (channel, no push into the session) -/
 def setTrArgs (v : α) : M α Unit := fun c => (.ok (), { c with st := { c.st with tr := v } })
-/-- `timeout_transport` setter, base_driver.py:904-909: args, then `_set_timeout(value)` if the transport has it -/
+/-- `timeout_transport` setter, base_driver.py:904-909: args, then `_set_timeout(value)` if the transport has it;
+    the push never fails.  Used for the pre-fix shape only (a tree that no longer exists). -/
 def setTr (v : α) : M α Unit := fun c =>
   (.ok (), { c with st := { c.st with tr := v, sess := c.st.sess.map (fun _ => v) } })
+
+/-- `self.transport._set_timeout(value)` (base_driver.py:919) — a call site of its own when the transport has
+    a session timeout: it may raise (paramiko/ssh2 with no session: ScrapliConnectionNotOpened), and then the
+    session keeps what it had -/
+def push (v : α) (r : Region) : M α Unit := fun c =>
+  match c.st.sess with
+  | none => (.ok (), c)
+  | some _ =>
+    match (nextEv c.tape).1.exc with
+    | none => (.ok (), { (siteEv .push r c).2 with st := { c.st with sess := some v } })
+    | some x => (.error x, (siteEv .push r c).2)
+
+/-- the `timeout_transport` setter with a push that can raise: the args attribute is assigned FIRST (:914) -/
+def setTrP (v : α) (r : Region) : M α Unit := do
+  setTrArgs v
+  push v r
 
 /-- the `timeout_ops=` keyword as `timeout_modifier` sees it -/
 inductive Ov (α : Type)
@@ -195,17 +239,28 @@ def readLoop : Nat → M α Unit
     if e.flag then pure ()                          -- time is up / expected output / prompt seen: break
     else readLoop n
 
-/-- `_read_until_prompt_or_time`, sync_channel.py:230-259 / async_channel.py:232-262 -/
-def readUntilPromptOrTime (sh : Shape) (V : ValOps α) (fuel : Nat) (rd : Option α) : M α Unit := do
-  let rd := rd.getD V.chanDflt                      -- if read_duration is None: read_duration = 2.5
-  let s ← getSt
-  let prev := s.tr                                  -- previous_timeout_transport = _transport_args.timeout_transport
-  setTrArgs (V.trunc rd)                            -- _transport_args.timeout_transport = int(read_duration)
+/-- the protected (or not) part of `_read_until_prompt_or_time`: loop, restore -/
+def readTail (sh : Shape) (fuel : Nat) (prev : α) : M α Unit :=
   if sh.chanFinally then
     tryFin (readLoop fuel) (setTrArgs prev)
   else do
     readLoop fuel
     setTrArgs prev                                  -- _transport_args.timeout_transport = previous_timeout_transport
+
+/-- `_read_until_prompt_or_time`, sync_channel.py:230-259 / async_channel.py:232-262 -/
+def readUntilPromptOrTime (sh : Shape) (V : ValOps α) (fuel : Nat) (rd : Option α) : M α Unit := do
+  let rd := rd.getD V.chanDflt                      -- if read_duration is None: read_duration = 2.5
+  let s ← getSt
+  let prev := s.tr                                  -- previous_timeout_transport = _transport_args.timeout_transport
+  if sh.chanFinally && sh.chanSwapInTry then
+    tryFin (do
+      setTrArgs (V.trunc rd)                        -- try: _transport_args.timeout_transport = int(read_duration)
+      callIf' sh.asyncExc                           --      read_buf = BytesIO(buf); start = time.time()  [async exception?]
+      readLoop fuel) (setTrArgs prev)
+  else do
+    setTrArgs (V.trunc rd)                          -- _transport_args.timeout_transport = int(read_duration)
+    callIf' sh.asyncExc                             -- read_buf = BytesIO(buf); start = time.time()  [async exception?]
+    readTail sh fuel prev
 
 /-- GenericDriver._send_command (sync_driver.py:118-172): decorated; body = _pre_send_command,
     channel.send_input; returns `response.failed` -/
@@ -280,16 +335,30 @@ def cbLoop (sh : Shape) (orig : α) (cbs : List (Cb α)) : Nat → M α (Cb α)
 
 /-- the part of read_callback that runs under the temporary transport timeout
     (sync_driver.py:578-612): swap, read loop, restore; yields the callback to run -/
-def cbSwap (sh : Shape) (V : ValOps α) (cbs : List (Cb α)) (fuel : Nat) (rt : α) : M α (Cb α) := do
+def cbSwapPre (sh : Shape) (V : ValOps α) (cbs : List (Cb α)) (fuel : Nat) (rt : α) : M α (Cb α) := do
+  let s ← getSt                                     -- the form before 9d6a16c (pushes that raise are not modelled here)
+  let orig := s.tr
+  setTr (if V.nonneg rt then rt else orig)
+  let cb ← cbLoop sh orig cbs fuel
+  setTr orig                                        -- (before callback.run) self.timeout_transport = original
+  pure cb
+
+/-- swap before the `try` (9d6a16c): sync_driver.py:578-624 -/
+def cbSwapOut (sh : Shape) (V : ValOps α) (cbs : List (Cb α)) (fuel : Nat) (rt : α) : M α (Cb α) := do
   let s ← getSt
   let orig := s.tr                                  -- original_transport_timeout = self.timeout_transport
-  setTr (if V.nonneg rt then rt else orig)          -- self.timeout_transport = read_timeout if read_timeout >= 0 else ...
-  if sh.cbFinally then
-    tryFin (cbLoop sh orig cbs fuel) (setTr orig)
-  else do
-    let cb ← cbLoop sh orig cbs fuel
-    setTr orig                                      -- (before callback.run) self.timeout_transport = original
-    pure cb
+  setTrP (if V.nonneg rt then rt else orig) .swap   -- self.timeout_transport = read_timeout if read_timeout >= 0 else ...
+  tryFin (cbLoop sh orig cbs fuel) (setTrP orig .none)   -- try: <read loop> finally: self.timeout_transport = original
+
+/-- swap as the first statement inside the `try` (fixes/C14-swap-inside-try.patch) -/
+def cbSwapIn (sh : Shape) (V : ValOps α) (cbs : List (Cb α)) (fuel : Nat) (rt : α) : M α (Cb α) := do
+  let s ← getSt
+  let orig := s.tr
+  tryFin (do setTrP (if V.nonneg rt then rt else orig) .cb; cbLoop sh orig cbs fuel) (setTrP orig .none)
+
+def cbSwap (sh : Shape) (V : ValOps α) (cbs : List (Cb α)) (fuel : Nat) (rt : α) : M α (Cb α) :=
+  if sh.cbFinally then (if sh.cbSwapInTry then cbSwapIn sh V cbs fuel rt else cbSwapOut sh V cbs fuel rt)
+  else cbSwapPre sh V cbs fuel rt
 
 /-- GenericDriver.read_callback (sync_driver.py:568-631 / async_driver.py:567-633) -/
 def readCallback (sh : Shape) (V : ValOps α) (cbs : List (Cb α)) : Nat → Bool → α → M α Unit
